@@ -858,6 +858,32 @@ func placeTable(repo string, args []string) (string, error) {
 	}
 	fmt.Fprintf(&sb, "Definition gen_nodetags : list (string * N) :=\n  [%s].\n", strings.Join(tn, "; "))
 	fmt.Fprintf(&sb, "Definition gen_num_buckets : N := %d.\n", val["NumBuckets"])
+	// the root tag of a compiled pattern is the Tag of its first operation: every Tag of gogrep's operation table
+	dir, err := gogrepDir(repo)
+	if err != nil {
+		return "", err
+	}
+	ops, err := os.ReadFile(dir + "/operations.gen.go")
+	if err != nil {
+		return "", err
+	}
+	seenTag := map[string]bool{}
+	var ptags []string
+	for _, m := range regexp.MustCompile(`(?m)^\s*Tag:\s+nodetag\.(\w+),`).FindAllStringSubmatch(string(ops), -1) {
+		if seenTag[m[1]] {
+			continue
+		}
+		seenTag[m[1]] = true
+		v, ok := val[m[1]]
+		if !ok {
+			return "", fmt.Errorf("operations.gen.go: unknown tag %s", m[1])
+		}
+		ptags = append(ptags, strconv.Itoa(v))
+	}
+	if len(ptags) < 10 {
+		return "", fmt.Errorf("operations.gen.go: operation table not understood")
+	}
+	fmt.Fprintf(&sb, "Definition gen_pattern_tags : list N :=\n  [%s].\n", strings.Join(ptags, "; "))
 	fmt.Fprintf(&sb, "Definition gen_place_cases : list (N * place) :=\n  [%s].\n", strings.Join(cases, "; "))
 	// what follows the switch: the placement loop and the counter
 	var after []string
@@ -866,5 +892,267 @@ func placeTable(repo string, args []string) (string, error) {
 	}
 	sb.WriteString("Local Open Scope string_scope.\n")
 	fmt.Fprintf(&sb, "Definition gen_place_loop : list string :=\n  %s.\n", coqStringList(after))
+	return sb.String(), nil
+}
+
+// ---------------------------------------------------------------- validtables (C06): name tables and pinned validation code
+
+func init() {
+	subcommands["validtables"] = validTables
+}
+
+func stringLits(l *loadTr, list []ast.Expr) ([]string, error) {
+	var out []string
+	for _, e := range list {
+		bl, ok := e.(*ast.BasicLit)
+		if !ok || bl.Kind != token.STRING {
+			return nil, l.errf(e, "case label is not a string literal")
+		}
+		s, err := strconv.Unquote(bl.Value)
+		if err != nil {
+			return nil, err
+		}
+		out = append(out, s)
+	}
+	return out, nil
+}
+
+func validTables(repo string, args []string) (string, error) {
+	l := &loadTr{fset: token.NewFileSet()}
+	f, err := parseGo(l.fset, repo+"/ruleguard/ir_loader.go")
+	if err != nil {
+		return "", err
+	}
+	nf := findFunc(f, "irLoader", "newFilter")
+	sk := findFunc(f, "irLoader", "stringToBasicKind")
+	if nf == nil || sk == nil {
+		return "", fmt.Errorf("newFilter / stringToBasicKind not found")
+	}
+	var kinds, objects []string
+	var ferr error
+	foundKind, foundObj := false, false
+	ast.Inspect(nf.Body, func(n ast.Node) bool {
+		sw, ok := n.(*ast.SwitchStmt)
+		if !ok || sw.Tag == nil || ferr != nil {
+			return true
+		}
+		switch l.str(sw.Tag) {
+		case "kindString":
+			foundKind = true
+			for _, c := range sw.Body.List {
+				cc := c.(*ast.CaseClause)
+				if cc.List == nil {
+					// default: kind := l.stringToBasicKind(kindString); if kind == 0 { return error }
+					if len(cc.Body) < 2 || l.str(cc.Body[0]) != "kind := l.stringToBasicKind(kindString)" ||
+						!strings.HasPrefix(l.str(cc.Body[1]), "if kind == 0 { return result, l.errorf(filter.Line, nil, ") {
+						ferr = l.errf(cc, "OfKind: unexpected default case")
+					}
+					continue
+				}
+				ss, err := stringLits(l, cc.List)
+				if err != nil {
+					ferr = err
+					return false
+				}
+				kinds = append(kinds, ss...)
+			}
+		case "typeString":
+			for _, c := range sw.Body.List {
+				cc := c.(*ast.CaseClause)
+				if cc.List == nil {
+					if len(cc.Body) != 1 || !strings.HasPrefix(l.str(cc.Body[0]), "return result, l.errorf(filter.Line, nil, ") {
+						ferr = l.errf(cc, "Object.Is: unexpected default case")
+					}
+					continue
+				}
+				if len(cc.Body) != 0 {
+					ferr = l.errf(cc, "Object.Is: a name case with a body")
+					return false
+				}
+				ss, err := stringLits(l, cc.List)
+				if err != nil {
+					ferr = err
+					return false
+				}
+				objects = append(objects, ss...)
+				foundObj = true
+			}
+		}
+		return true
+	})
+	if ferr != nil {
+		return "", ferr
+	}
+	if !foundKind || !foundObj {
+		return "", fmt.Errorf("newFilter: kind / object name switches not found")
+	}
+	// stringToBasicKind: `case "name": return types.X` ... `default: return 0`
+	if len(sk.Body.List) != 1 {
+		return "", l.errf(sk, "stringToBasicKind: unexpected body")
+	}
+	sw, ok := sk.Body.List[0].(*ast.SwitchStmt)
+	if !ok {
+		return "", l.errf(sk, "stringToBasicKind: unexpected body")
+	}
+	for _, c := range sw.Body.List {
+		cc := c.(*ast.CaseClause)
+		if len(cc.Body) != 1 {
+			return "", l.errf(cc, "stringToBasicKind: unexpected case")
+		}
+		ret := l.str(cc.Body[0])
+		if cc.List == nil {
+			if ret != "return 0" {
+				return "", l.errf(cc, "stringToBasicKind: default does not return 0")
+			}
+			continue
+		}
+		if !strings.HasPrefix(ret, "return types.Is") {
+			return "", l.errf(cc, "stringToBasicKind: case returns %s", ret)
+		}
+		ss, err := stringLits(l, cc.List)
+		if err != nil {
+			return "", err
+		}
+		kinds = append(kinds, ss...)
+	}
+	// nodetag.FromString
+	dir, err := gogrepDir(repo)
+	if err != nil {
+		return "", err
+	}
+	nt, err := parseGo(l.fset, dir+"/nodetag/nodetag.go")
+	if err != nil {
+		return "", err
+	}
+	fs := findFunc(nt, "", "FromString")
+	if fs == nil {
+		return "", fmt.Errorf("nodetag.FromString not found")
+	}
+	var tagNames []string
+	ast.Inspect(fs.Body, func(n ast.Node) bool {
+		cc, ok := n.(*ast.CaseClause)
+		if !ok || cc.List == nil || ferr != nil {
+			return true
+		}
+		if len(cc.Body) != 1 || !strings.HasPrefix(l.str(cc.Body[0]), "return ") || l.str(cc.Body[0]) == "return Unknown" {
+			ferr = l.errf(cc, "FromString: unexpected case body")
+			return false
+		}
+		ss, err := stringLits(l, cc.List)
+		if err != nil {
+			ferr = err
+			return false
+		}
+		tagNames = append(tagNames, ss...)
+		return true
+	})
+	if ferr != nil {
+		return "", ferr
+	}
+	var sb strings.Builder
+	sb.WriteString("(* GENERATED by go2coq validtables from ruleguard/ir_loader.go, go_version.go, irconv/irconv.go, engine.go and gogrep/nodetag -- regenerated on every check. *)\n")
+	sb.WriteString("From Coq Require Import List String.\nImport ListNotations.\nLocal Open Scope string_scope.\n\n")
+	fmt.Fprintf(&sb, "Definition gen_kind_names : list string :=\n  %s.\n", coqStringList(kinds))
+	fmt.Fprintf(&sb, "Definition gen_object_names : list string :=\n  %s.\n", coqStringList(objects))
+	fmt.Fprintf(&sb, "Definition gen_tag_names : list string :=\n  %s.\n", coqStringList(tagNames))
+	// pinned validation code
+	gv, err := parseGo(l.fset, repo+"/ruleguard/go_version.go")
+	if err != nil {
+		return "", err
+	}
+	pins := []struct {
+		f          *ast.File
+		recv, name string
+		upto       string // pin the statements before the first one starting with this text ("" = all)
+	}{
+		{f, "irLoader", "checkBoundVars", ""}, {f, "irLoader", "checkTemplateVars", ""}, {f, "", "templateVars", ""},
+		{f, "irLoader", "loadSyntaxRule", "dst := l.res.universal"}, {f, "irLoader", "loadCommentRule", "resultBase := resultProto"},
+		{gv, "", "ParseGoVersion", ""},
+	}
+	for _, p := range pins {
+		fd := findFunc(p.f, p.recv, p.name)
+		if fd == nil {
+			return "", fmt.Errorf("%s not found", p.name)
+		}
+		body := l.bodyStrings(fd)
+		if p.upto != "" {
+			k := -1
+			for i, s := range body {
+				if strings.HasPrefix(s, p.upto) {
+					k = i
+					break
+				}
+			}
+			if k < 0 {
+				return "", fmt.Errorf("%s: statement %q not found", p.name, p.upto)
+			}
+			body = body[:k]
+		}
+		fmt.Fprintf(&sb, "Definition gen_body_%s : list string :=\n  %s.\n", p.name, coqStringList(body))
+	}
+	// error sites: every return of a non-nil error that is not produced by a locating helper
+	conv, err := parseGo(l.fset, repo+"/ruleguard/irconv/irconv.go")
+	if err != nil {
+		return "", err
+	}
+	utils, err := parseGo(l.fset, repo+"/ruleguard/ir_utils.go")
+	if err != nil {
+		return "", err
+	}
+	eng, err := parseGo(l.fset, repo+"/ruleguard/engine.go")
+	if err != nil {
+		return "", err
+	}
+	var sites []string
+	scan := func(file *ast.File, only map[string]bool) {
+		for _, d := range file.Decls {
+			fd, ok := d.(*ast.FuncDecl)
+			if !ok || fd.Body == nil || (only != nil && !only[fd.Name.Name]) {
+				continue
+			}
+			res := fd.Type.Results
+			if res == nil || len(res.List) == 0 || l.str(res.List[len(res.List)-1].Type) != "error" {
+				continue
+			}
+			ast.Inspect(fd.Body, func(n ast.Node) bool {
+				if _, ok := n.(*ast.FuncLit); ok {
+					return false
+				}
+				rs, ok := n.(*ast.ReturnStmt)
+				if !ok || len(rs.Results) == 0 {
+					return true
+				}
+				e := l.str(rs.Results[len(rs.Results)-1])
+				if e == "nil" || e == "err" || strings.HasPrefix(e, "l.errorf(") || strings.HasPrefix(e, "l.importErrorf(") {
+					return true
+				}
+				sites = append(sites, fd.Name.Name+": "+l.str(rs))
+				return true
+			})
+		}
+	}
+	scan(f, nil)
+	scan(utils, nil)
+	scan(eng, map[string]bool{"Load": true, "LoadFromIR": true})
+	// irconv: every panic must carry a located convError
+	for _, d := range conv.Decls {
+		fd, ok := d.(*ast.FuncDecl)
+		if !ok || fd.Body == nil {
+			continue
+		}
+		ast.Inspect(fd.Body, func(n ast.Node) bool {
+			call, ok := n.(*ast.CallExpr)
+			if !ok || l.str(call.Fun) != "panic" || len(call.Args) != 1 {
+				return true
+			}
+			a := l.str(call.Args[0])
+			if strings.HasPrefix(a, "conv.errorf(") {
+				return true
+			}
+			sites = append(sites, fd.Name.Name+": panic("+a+")")
+			return true
+		})
+	}
+	fmt.Fprintf(&sb, "Definition gen_unlocated_error_sites : list string :=\n  %s.\n", coqStringList(sites))
 	return sb.String(), nil
 }
